@@ -21,7 +21,7 @@ ASSUMPTIONS = ["interior cusps (two different one-sided limits) make no claim an
                "regular point: |B'(t)| > 1e-6 * size; tolerance 1e-9 on unit vectors (1e-6 for arcs, cf. C04), curvature to 1e-7 relative"]
 CONFIGS = ['scipy']
 BUDGET = {'quick': 30000, 'thorough': 500000}
-REQUIRED = ['numpy_errstate_default', 'singular_transform:matrix', 'singular_transform:scaled_tiny', 'transform:matrix', 'transform:scaled_tiny', 'transform:scaled_huge', 'singular_transform:scaled', 'singular_transform:rotated', 'singular:t0', 'singular:t1', 'regular', 'numpy_coords', 'kind:A', 'kind:L', 'transform:rotated', 'transform:scaled_neg',
+REQUIRED = ['array_t', 'numpy_errstate_default', 'singular_transform:matrix', 'singular_transform:scaled_tiny', 'transform:matrix', 'transform:scaled_tiny', 'transform:scaled_huge', 'singular_transform:scaled', 'singular_transform:rotated', 'singular:t0', 'singular:t1', 'regular', 'numpy_coords', 'kind:A', 'kind:L', 'transform:rotated', 'transform:scaled_neg',
             'transform:reversed', 'quadrant:0', 'quadrant:1', 'quadrant:2', 'quadrant:3', 'circular_arc']
 
 EPS = 2.0 ** -52
@@ -189,6 +189,24 @@ def _check(case, ctx):
             if kind == 'A' and seg.radius.real == seg.radius.imag:
                 ctx.count('circular_arc')
                 ctx.check(abs(kap - 1 / seg.radius.real) <= 1e-6 / seg.radius.real, 'curvature/circle', 'curvature=%r but 1/r=%r' % (kap, 1 / seg.radius.real))
+        # -- several parameters at once --------------------------------------------------------------
+        # the methods accept numpy arrays of parameters; whatever they return for an array must be the per-parameter values
+        # (an exception is not judged here: the property speaks of single parameters)
+        tsr = [t for t in case['ts'] + [0.3, 0.7] if abs(ref_derivs(spec, seg, t)[0]) > 1e-6 * size]
+        if len(tsr) >= 2:
+            arr = np.array(tsr)
+            for name, fn in (('unit_tangent', seg.unit_tangent), ('normal', seg.normal), ('curvature', seg.curvature)):
+                try:
+                    many = fn(arr)
+                except Exception:
+                    ctx.count('array_t_raises:' + name)
+                    continue
+                ctx.count('array_t')
+                single = np.array([complex(fn(t)) for t in tsr])
+                many = np.broadcast_to(np.asarray(many, dtype=complex), single.shape)
+                scale_ = 1.0 + np.abs(single)
+                ctx.check(bool(np.all(np.abs(many - single) <= 1e-9 * scale_)), 'array_t/%s/%s' % (name, kind),
+                          '%s(array %r) = %r, one by one %r' % (name, tsr, many.tolist(), single.tolist()))
         # -- singular end points ------------------------------------------------------------------------
         if case['mode'] == 'singular':
             e = case['sing_end']
